@@ -15,6 +15,7 @@ import ZnVerif.Model.Ast
 import ZnVerif.Model.Num
 import ZnVerif.Model.IdMatch
 import ZnVerif.Spec.TextMethods
+import ZnVerif.Spec.Seq
 
 namespace ZnVerif.Spec
 open ZnVerif.Model (Expr Stmt ExecBlock Program Ident NumOps)
@@ -717,6 +718,14 @@ def builtinMut (recv : SVal ν) (m : String) (args : List (SVal ν)) : SM ν (SV
   match recv, m, args with
   | .list xs, "后增", [x] => pure (.list (xs ++ [x]), .null)
   | .list xs, "前增", [x] => pure (.list (x :: xs), .null)
+  -- 新增 / 添加 (草案07, Spec/Seq.lean `insertAt`): the item gets 0-based position `p` (past the end: at the end; `-N` counts
+  -- from the end; before the first item: index error).  A position that is not a whole number is left open.
+  | .list xs, "新增", [x, .num p] | .list xs, "添加", [x, .num p] =>
+    if NumOps.eq (NumOps.floor p) p then
+      match Spec.Seq.insertAt xs (NumOps.toInt p) x with
+      | some ys => pure (.list ys, .null)
+      | none => fault 40
+    else unspec
   | .list xs, "左移", _ => pure (match xs with | [] => (.list [], .null) | y :: ys => (.list ys, y))
   | .list xs, "右移", _ => pure (match xs.getLast? with | none => (.list [], .null) | some y => (.list xs.dropLast, y))
   | .list xs, "合并", ys =>
